@@ -74,7 +74,8 @@ type c12Res struct {
 	err error
 }
 
-const c12Wait = 10 * time.Second
+// bounded waits; multiplied by the load scale at start-up (runC12)
+var c12Wait = 10 * time.Second
 
 // execSem runs the op sequence on a fresh real semaphore.  `client` says the
 // sequence follows the client protocol: an `r` op names the id of an earlier
@@ -93,6 +94,7 @@ func execSem(size int64, ops []semOp, client bool) semExec {
 	var heldSum int64
 	panicked := false
 	step := 0
+	var prevRes int64
 	fail := func(name, f string, a ...interface{}) {
 		ex.Monitors = append(ex.Monitors, fmt.Sprintf("%s@%d: %s", name, step, fmt.Sprintf(f, a...)))
 	}
@@ -247,6 +249,11 @@ func execSem(size int64, ops []semOp, client bool) semExec {
 		if len(gev) > 0 && res > cur {
 			fail("grant-does-not-fit", "granted with Reserved()=%d > CurrentSize()=%d", res, cur)
 		}
+		// an over-commitment (reserved > current size, left by an availability drop) never grows
+		if !(op.Kind == "r" && op.N < 0) && res > prevRes && res > cur {
+			fail("overcommit-grew", "Reserved() rose from %d to %d above CurrentSize()=%d", prevRes, res, cur)
+		}
+		prevRes = res
 		if client {
 			if res != heldSum {
 				fail("bookkeeping", "Reserved()=%d but holders hold %d", res, heldSum)
@@ -555,7 +562,7 @@ func c12Stress(c *Ctx, rounds int) {
 		stalled := false
 		select {
 		case <-done:
-		case <-time.After(15 * time.Second):
+		case <-time.After(c12Scaled(15 * time.Second)):
 			stalled = true
 		}
 		close(stop)
@@ -654,6 +661,7 @@ func parseSemCorpus(line string) (semCase, bool) {
 func runC12(c *Ctx) {
 	r := c.Res
 	util.ENABLE_LOGGING = false
+	c12Wait = c12Scaled(10 * time.Second)
 	defer func() {
 		// Tier B: the real mrp + local job manager + stage processes; overlap of job
 		// intervals weighted by the reservations recorded in _jobinfo
@@ -663,9 +671,9 @@ func runC12(c *Ctx) {
 		if env, err := tbSetup(c); err != nil {
 			r.note("tier B unavailable: %v", err)
 		} else if c.Thorough {
-			tbC12(c, env, 16)
+			c12TierB(c, env, 16)
 		} else {
-			tbC12(c, env, 4)
+			c12TierB(c, env, 4)
 		}
 	}()
 	r.Rule = "ResourceSemaphore: op sequences (corpus + PRNG; client-protocol and raw-API streams; sizes 1..40, 5..40 ops; amounts 0, small, =limit, >limit, negative in the raw stream; UpdateActual/UpdateSize/UpdateFreeUsed below, at and above the limit) executed on the real semaphore with one goroutine per Acquire and compared with Martian.Semaphore.step after every op (CurrentSize, Reserved, QueueLength, grants/rejections/panic/return value); non-trivial = at least one request had to queue; distinct = distinct (size, op sequence). Monitors on the real code after every op: grant fits, FIFO, no lost wake-up, Reserved = sum held, Reserved <= limit. + concurrent stress rounds. MaxJobsSemaphore: op sequences vs MJ.step + |running| <= limit + no blocked waiter while there is room. GetSystemReqs: dyadic-rational requests vs Martian.Semaphore.normalize. LocalJobManager.Enqueue: real /bin/sh jobs, start/end log replayed against the limits with the model's Acquire amounts"
